@@ -122,7 +122,8 @@ task_deriv.contract_fn = "calculus.Derivate.curve"
 def tasks(tier, seed):
     from ..pyvc.driver import verify
     from ..contracts import misc
-    ts = [(verify, (misc.DIFFERENCE_VECTOR, "heavy", "Calculus.difference_vector", None))]
+    ts = [(verify, (misc.DIFFERENCE_VECTOR, "heavy", "Calculus.difference_vector", None)),
+          (verify, (misc.DIFFERENCE_MATRIX, "heavy", "Calculus.difference_matrix", None))]
     for p, cells in shapes(tier):
         for variant in ((0, 1) if tier == "quick" else (0, 1, 2)):
             ts.append((task_deriv, (p, cells, variant, False)))
@@ -171,7 +172,7 @@ INFO = dict(
                 "(the code's matrix entries are doubles: A1); degree 0 gives the zero curve; same interval; C unmodified; Calculus.difference_vector's "
                 "closed form is proved for all knot vectors by engine V.",
     functions=["calculus.Derivate.curve/bezier/spline/nonrational_bezier/nonrational_spline/rational_bezier/rational_spline",
-               "heavy.Calculus.difference_vector (V)", "heavy.Calculus.difference_matrix", "heavy.Calculus.derivate_nonrational_bezier",
+               "heavy.Calculus.difference_vector (V)", "heavy.Calculus.difference_matrix (V)", "heavy.Calculus.derivate_nonrational_bezier",
                "heavy.Calculus.derivate_nonrational_spline", "heavy.Calculus.derivate_rational_bezier"],
 )
 
